@@ -51,14 +51,15 @@ type Event struct {
 }
 
 type Failure struct {
-	Kind   string // "assert", "panic", "fatal", "deadlock", "race"
-	ID     string // assertion id / panic message
-	Pos    string
-	Detail string
-	Model  map[string]uint64
-	Decs   []*decision
-	Known  []string // known-finding regions active on the path
-	Stack  []string
+	Kind    string // "assert", "panic", "fatal", "deadlock", "race"
+	ID      string // assertion id / panic message
+	Pos     string
+	Detail  string
+	Model   map[string]uint64
+	Decs    []*decision
+	Known   []string // known-finding regions active on the path
+	Stack   []string
+	Blocked []string // parked goroutines at the time of the failure: "<function>:<op>"
 }
 
 func (e *Engine) posStr(p token.Pos) string {
